@@ -5,6 +5,10 @@ from ..core import CTX, attempt, held, violated, undefined, same_array, short
 from .. import gen, contracts, rl
 
 PROP = "C15"
+LEVEL_TEXT = 'numpy-on-decoded oracle for int / list / array / bool (array, list) / run-length-mask (encoded or produced by comparison) / slice / window indexing; systematic slice sweep over lengths 1..6 x bounds -8..8 x steps ±1..3. Exploration.'
+LEVEL_NOTE = "trusts numpy 2.x, CPython (copy.copy, slice semantics, big ints) and the reference model in rtmon/props/c15.py; decides the executions it produces, nothing more"
+TECHNIQUE = 'runtime monitoring: reference-model oracle (numpy on the decoded array) + systematic slice sweep'
+DESIGN_REF = "DESIGN.md sections 0, 5 (C15), 7"
 RULE = ("case = (dtype, values with a named run pattern, index: int | list | int array | bool array | run-length mask (encoded or produced by a comparison) | "
         "slice | start/stop vectors); systematic sweep of slices over lengths 1..6 with bounds in {None, -8..8} and steps {None, +-1, +-2, +-3}; "
         "oracle = numpy on the decoded array; distinct = hash of the case; non-trivial = length >= 2")
